@@ -72,6 +72,9 @@ class Contract:
         self.inline_if_none = None
         self.group = ()
         self.hints = []               # [(label, FunctionDef)]: lemma uses evaluated at entry
+        self.comp_invariants = {}     # comprehension ordinal -> [(label, FunctionDef)]
+        self.loop_modifies = {}       # loop ordinal -> [names of objects modified through callees]
+        self.comp_modifies = {}       # comprehension ordinal -> [names]
 
 
 def _literal(node):
@@ -123,6 +126,8 @@ class World:
                         c.returns = parse_kind(val)
                     elif nm == 'loop_kinds':
                         c.loop_kinds = {int(k): {a: parse_kind(b) for a, b in v.items()} for k, v in val.items()}
+                    elif nm in ('loop_modifies', 'comp_modifies'):
+                        setattr(c, nm, {int(k): list(v) for k, v in val.items()})
                     elif nm in ('decreases', 'raises', 'memo', 'modifies', 'structural_eq', 'trusted',
                                 'inline', 'note', 'pure_result', 'inline_if_none', 'group'):
                         setattr(c, nm, val)
@@ -140,6 +145,14 @@ class World:
                         c.hints.append((nm, item))
                     elif nm == 'decreases':
                         c.decreases = item
+                    elif nm.startswith('comp_invariant'):
+                        # comp_invariant<ordinal>[_label]: a comprehension with side effects, run as a loop
+                        rest = nm[len('comp_invariant'):]
+                        num = ''
+                        while rest and rest[0].isdigit():
+                            num += rest[0]
+                            rest = rest[1:]
+                        c.comp_invariants.setdefault(int(num or 0), []).append((nm, item))
                     elif nm.startswith('invariant'):
                         # invariant<ordinal>[_label]
                         rest = nm[len('invariant'):]
